@@ -1,11 +1,14 @@
 import Tumfl.Theory.Hints
+import Tumfl.Theory.HintOrder
 /-!
 # C19  Parser error context is a properly nested path (accepted case) / C09 (no IndexError from the hint stack)
 
 * `C19_ok`: when the model parser (T2-tied to parser.py, hint stack included) accepts a text, its context chain is empty:
   every construct that was entered has been closed - by a mutual induction over all 21 parse functions and the generic ladder.
 * `C09_no_index_error`: the hint-stack operations (`list.pop()`, `[-1]`) never raise `IndexError`, whatever the text.
-The rejected case of C19 (hint positions in source order, none after the offending token) has no theorem yet: oracle stream only.
+* `C19_rejected`: when the model parser rejects a text with a ParserError, the hint chain it carries is in source order (positions
+  non-decreasing from outermost to innermost - two constructs may begin at the same token) and no hint lies after the offending token;
+  it rests on `C19_lexer_monotone` (successive tokens have non-decreasing positions) and an invariant over all 21 parse functions.
 -/
 namespace Tumfl.Props
 open Tumfl.Model Tumfl.Theory
@@ -18,5 +21,34 @@ theorem C19_chunk (fuel : Nat) (s s' : PSt) (b : Block) (h : parseChunk fuel s =
 
 theorem C09_no_index_error (src : List Char) (site : String) : parseText src ≠ .error (.py "IndexError" site) :=
   parseText_no_index_error src site
+
+theorem C19_rejected (src : List Char) (msg : String) (tok : Token) (hs : List Hint)
+    (h : parseText src = .error (.parser msg tok hs)) :
+    (hs.Pairwise fun a b => posLe (tokPos a.token) (tokPos b.token)) ∧ ∀ x ∈ hs, posLe (tokPos x.token) (tokPos tok) :=
+  parseText_error_hints' src msg tok hs h
+
+theorem C19_lexer_monotone {cfg : LexCfg} {l0 l1 l2 : LexSt} {t1 t2 : Token}
+    (h1 : getNextToken cfg l0 = .ok (t1, l1)) (h2 : getNextToken cfg l1 = .ok (t2, l2)) : posLe (tokPos t1) (tokPos t2) :=
+  getNextToken_mono h1 h2
+
+/-- non-vacuity: a rejected text whose error carries four hints -/
+example : ∃ msg tok hs, parseText "x = f(".toList = .error (.parser msg tok hs) ∧ 2 ≤ hs.length ∧ HintsOK tok hs := by
+  cases h : parseText "x = f(".toList with
+  | ok r =>
+    have : errInfo (parseText "x = f(".toList) ≠ none := by decide +kernel
+    rw [h] at this
+    exact absurd rfl this
+  | error e =>
+    cases e with
+    | parser m t hs =>
+      refine ⟨m, t, hs, rfl, ?_, parseText_error_hints _ _ _ _ h⟩
+      have : (errInfo (parseText "x = f(".toList)).map (fun x => x.2.2.length) = some 4 := by decide +kernel
+      rw [h] at this
+      simp [errInfo] at this
+      omega
+    | _ =>
+      have : errInfo (parseText "x = f(".toList) ≠ none := by decide +kernel
+      rw [h] at this
+      exact absurd rfl this
 
 end Tumfl.Props
